@@ -141,6 +141,10 @@ class CutplaceApp(object):
         assert cid_path is not None
         new_cid = interface.Cid()
         _log.info('read CID from "%s"', cid_path)
+        # Ensure that a CID that cannot be read results in an OSError no matter its format; for
+        # example, the ODS reader reports a missing file as broken data.
+        with open(cid_path, "rb"):
+            pass
         cid_rows = rowio.auto_rows(cid_path)
         new_cid.read(cid_path, cid_rows)
         self.cid = new_cid
